@@ -7,6 +7,9 @@ BASELINE_OFF = "for m in $(cat /w/out/gomods.txt); do MF=$(cd /repo/$m && . /w/o
 
 # id -> (level text, level_note, technique)
 CLAIMED = {
+ "C05": ("scan of every panic-capable SSA instruction (index/slice expression, integer division, unchecked assertion, dereference/method call/map assignment/call through a value with a nil-valued program state, nil arguments of dereferencing callees, close, explicit panic/Fatal) in all functions reachable from the library's entry points; each site is discharged by a dominating guard (reaching-condition entailment incl. length tests evaluated per length), an earlier dereference of the same value, a recover barrier, or a named machine-checked lemma (non-empty round-robin list, scStates/scRefs key agreement, slots never nil, configuration before any connection, maps made by the only constructor, channel re-made after close, context values non-nil); anything else fails",
+         "panics inside gRPC/protobuf/reflect beyond the checked kind table are outside the verdict; pointer/interface fields the module never compares with nil are assumed non-nil after construction; gRPC is assumed to pass non-nil SubConn/ClientConn/Context values",
+         "static analysis: panic-capable instruction enumeration + guard recognisers (truth tables) + checked lemmas on go/ssa"),
  "C17": ("structural analysis of configuration handling: ParseConfig = protojson.Unmarshal with default options into a fresh message, returned unchanged; exactly three defaults (1/4/100) each ⇔ its own getter returned 0 on the same message; defaults stored into a proto.Clone or fresh literal, never the caller's object, and no balancer field aliases it; configuration written only by initializeConfig, reachable only while gb.cfg == nil; method table name → same entry's affinity; GCPMultiEndpoint stores/returns clones and serialises the caller's config with protojson.Marshal under the balancer's name",
          "protojson's accepted language and losslessness are trusted library behaviour; last-writer-wins for duplicate method names is not judged",
          "static analysis: provenance/alias analysis + truth-table equivalences + who-may-write on go/ssa"),
